@@ -44,6 +44,19 @@ func ruleDecodeDispatch(p *Prog, r *Report) {
 		in := decoderInterp(p)
 		in.PathBind["p0.msgLength"] = int64Val(11)
 		in.PathBind["p0.input[*]"] = Val{K: KInt, I: bigInt(int64(c)), Dep: true}
+		// the input is long enough for whatever length the bytes declare: the
+		// length check is decided, wherever it stands, and does not blur the
+		// format code on the way back from a helper
+		in.PathBind["len(p0.input)"] = int64Val(1 << 30)
+		in.InitBind["p0.pos"] = int64Val(14)
+		// a declared length every element width divides
+		for k := 1; k <= c&3; k++ {
+			lb := int64(0)
+			if k == c&3 {
+				lb = 8
+			}
+			in.PathBind[fmt.Sprintf("p0.input[%d]", 14+k)] = int64Val(lb)
+		}
 		got := map[reach]bool{}
 		in.OnCall = func(call *ssa.Call, callee *ssa.Function, args []Val, fr *frame) {
 			if !isFactory(callee) {
